@@ -110,7 +110,12 @@ def _format_column(col, max_preview: int | None = None) -> List[str]:
 			if v != v or v in (float('inf'), float('-inf')):
 				out.append(f"{v:g}")  # nan / inf / -inf have no int()
 			else:
-				out.append(f"{v:.1f}" if v == int(v) else f"{v:g}")
+				try:
+					out.append(f"{v:.1f}" if v == int(v) else f"{v:g}")
+				except OverflowError:
+					# a float column may hold ints of any size; one beyond the float range
+					# cannot be converted for the float format: show its digits
+					out.append(str(v))
 		elif col._dtype and col._dtype.kind is int:
 			out.append(str(v))
 		elif col._dtype and col._dtype.kind is date:
